@@ -50,7 +50,8 @@ def ref_text_layout(env, prefix):
 def text_layout(ctx, r, F):
     envs = layout.variant_envs(F)
     W, err = layout.text_writer(F)
-    R, err2 = layout.text_reader(F)
+    RM = layout.text_reader_evaluated(F)
+    R, err2 = layout.text_reader(F) if RM is None else ({"paths": []}, None)
     if envs is None or W is None or R is None:
         ctx.missing(r, err or err2 or "variant constants", cfg=F.key)
         return
@@ -93,6 +94,14 @@ def text_layout(ctx, r, F):
                     bad.append("%s: field %s written at %s with %s; reference offset %d with %s" % (name, fld, g and g[0], g and g[1], a, kinds[fld][0]))
         ctx.ob(r, ("store_into_str_bytes/" + mode, "field-windows"), not bad, "; ".join(bad[:3]), cfg=F.key, where=W["body"].where())
     # ---- reader
+    if RM is not None:
+        # decided by abstract evaluation of the parser (rmodel): every part decoder is handed its reference window, the Ok value holds each
+        # decoder's result in its own field, the prefix comparison is bytes 0..2 against "T1", for all variants / prefix modes
+        ctx.instance(r, RM["evaluations"])
+        ctx.ob(r, ("from_str_bytes", "field-windows"), not RM["bad"], "; ".join(RM["bad"][:3]), cfg=F.key, where=RM["body"].where(),
+               detail={"evaluations": RM["evaluations"], "engine": "evaluation"})
+        part_decoders(ctx, r, F, simd_r)
+        return
     ok_paths = [p for p in R["paths"] if p["ret"][0] == "agg" and p["ret"][1].endswith("Result::Ok")]
     ctx.instance(r, len(ok_paths))
     hf = common.hash_fields(F)
